@@ -80,6 +80,11 @@ func NewChain(ws []module.Wallet) (*Chain, error) {
 		return nil, fmt.Errorf("node setup: %v", t.Errs)
 	}
 	node.Chain.Logger().SetLevel(log.ErrorLevel) // the test node logs at trace level by default
+	// packages that log through the global logger (db, service) would fill the stdout pipe of a replay process
+	// whose output is read only when its turn comes; a blocked log write stalls the whole node
+	log.GlobalLogger().SetLevel(log.ErrorLevel)
+	log.GlobalLogger().SetOutput(io.Discard)
+	node.Chain.Logger().SetOutput(io.Discard)
 	c := &Chain{T: t, Node: node, Wallets: ws, honest: map[string]*Formats{}}
 	tip, err := node.BM.GetLastBlock()
 	if err != nil {
